@@ -161,6 +161,29 @@ def build() -> Check:
         const = isinstance(kws.get("operation_type"), ast.Attribute) and isinstance(kws.get("action"), ast.Attribute)
         ck.ob("R5.factory-fixes-kind", f"lambda_service.py:OperationUpdate.{n}", ok and const,
               f"factory must fix operation_type and action as constants (has {sorted(kws)})")
+    # "nothing after a terminal record": the executors record RETRY / FAIL for whatever their body raises as an ordinary Exception. create_checkpoint itself
+    # is called from inside those bodies (the SUCCEED of a step, of a child context). Once it has put an update into the queue, that update may still be
+    # applied - so from there on it may only raise what ends the invocation without passing for a body failure (BaseException-only classes). An Exception
+    # raised after the enqueue (r8_C11: a 60 s confirmation timeout reported as CheckpointError) becomes RETRY / FAIL behind a SUCCEED in flight.
+    from sa.protocol import create_checkpoint_traces
+    from sa.values import Obj as _Obj
+    n_after = 0
+    bad_after = []
+    for t in create_checkpoint_traces(pm):
+        puts = [e for e in t.events if e.kind == "EXT" and e.data["method"] in ("put", "put_nowait")]
+        if not puts or t.outcome != "raise":
+            continue
+        n_after += 1
+        cls_r = prog.classes.get((t.exc_class() or "").rstrip("*"))
+        qop = puts[-1].data["arg_values"][0] if puts[-1].data.get("arg_values") else None
+        ev = qop.fields.get("completion_event") if isinstance(qop, _Obj) else None
+        infeasible = isinstance(ev, _Obj) and any(str(k).endswith("is None") and v is True and "completion_event" in str(k) for k, v in t.pc)
+        if cls_r is not None and cls_r.is_subclass_of("builtins.Exception") and not infeasible:
+            bad_after.append(f"raises {cls_r.name} after the update was enqueued: " + trace_sig(t))
+    ck.floor("raising_paths_after_the_enqueue", n_after, 2)
+    ck.ob("R1.no-catchable-error-after-the-enqueue", fn_construct(pm.ckpt_fn), not bad_after,
+          (bad_after[0][:300] + " - the step / child / wait-for-condition executor takes it for a failure of its body and sends RETRY or FAIL for an operation whose "
+           "SUCCEED is still in flight") if bad_after else f"{n_after} raising paths, all BaseException-only classes")
     return ck
 
 
